@@ -124,8 +124,28 @@ def random_cases(seed, pool, k):
             if typ == "attester" and lst and r.random() < 0.4:
                 r.choice(lst)["vi"] = True
             vals.append(lst)
-        out.append([{"ev": "Call", "typ": typ, "ver": ver, "bucket": bucket, "T": t, "N": n, "domain": domain, "esrc": esrc,
-                     "vals": vals}])
+        call = {"ev": "Call", "typ": typ, "ver": ver, "bucket": bucket, "T": t, "N": n, "domain": domain, "esrc": esrc, "vals": vals}
+        if len(vals) >= 2 and r.random() < 0.35:
+            # CROSSED share keys: all validators of the call sign the same content (one signing root, as for randao, sync
+            # messages, selections, attestations of one committee) with the same set of share indices, and the peer holding
+            # share i used validator b's key for validator a and a's key for b.  Each of the two partials is signed by a
+            # key that is none of its validator's shares (by = -1 for the specification); summed over the two validators
+            # the errors cancel.
+            call["samecontent"] = True
+            size = r.randint(t, n)
+            ids = r.sample(range(1, n + 1), size)
+            call["vals"] = vals = [[honest(i) for i in ids] for _ in vals]
+            a, b = r.sample(range(len(vals)), 2)
+            for i in r.sample(ids, r.choice([1, 1, 2])):
+                for x, y in ((a, b), (b, a)):
+                    p = next(q for q in vals[x] if q["idx"] == i)
+                    p["by"], p["xval"], p["xby"] = -1, y, i
+            if r.random() < 0.3:   # only one direction: nothing cancels
+                for q in vals[b]:
+                    if "xval" in q:
+                        q["by"] = q["idx"]
+                        del q["xval"], q["xby"]
+        out.append([call])
     return out
 
 
